@@ -424,8 +424,8 @@ def corr(ctx, oracle_only=False, nsynth=None):
     # captured backend answers; the complete exit state incl. the recorded row must be the implementation's
     if not oracle_only:
         kwnfull.refine_scenarios(ctx, res, PROP, [('alzr-small-grid', ctx.n(250, 1200)), ('nicral', ctx.n(50, 300)),
-                                                  ('alzr-nodiff', ctx.n(120, 400)), ('alzr-loaded@rk4', ctx.n(50, 170)), ('nicral@rk4', ctx.n(30, 200)), ('alzr-loaded-dilute', ctx.n(200, 500)), ('nicral@2solves@rk4', ctx.n(30, 120))] + ([('alzr-fine-grid', 2500)] if ctx.thorough else []) + ([('almgsi-2phase-loaded', 200)] if ctx.thorough else []),
-                                 oracles=('continuity', 'volume'))
+                                                  ('alzr-nodiff', ctx.n(120, 400)), ('alzr-loaded@rk4', ctx.n(50, 170)), ('nicral@rk4', ctx.n(30, 200)), ('alzr-loaded-dilute', ctx.n(200, 500)), ('nicral@2solves@rk4', ctx.n(30, 120)), ('nicral-faults', ctx.n(160, 400))] + ([('alzr-fine-grid', 2500)] if ctx.thorough else []) + ([('almgsi-2phase-loaded', 200)] if ctx.thorough else []),
+                                 oracles=('continuity', 'volume', 'fault'))
     vlib.finish_guard(res)
     return res
 
